@@ -1770,7 +1770,7 @@ class SFTPAttrs(Record):
             flags |= FILEXFER_ATTR_SIZE
             attrs.append(UInt64(self.size))
 
-        if self.alloc_size is not None:
+        if sftp_version >= 6 and self.alloc_size is not None:
             flags |= FILEXFER_ATTR_ALLOCATION_SIZE
             attrs.append(UInt64(self.alloc_size))
 
